@@ -24,6 +24,7 @@ type c30Case struct {
 	Seed  int64           `json:"seed"`
 	Idx   int             `json:"idx"`
 	Slots int             `json:"slots"`
+	Nodes int             `json:"nodes"`
 	// Corrupt is the binding self-test: "expect" drops one expected bit, "nocsv" etc.
 	Corrupt string `json:"corrupt,omitempty"`
 }
@@ -247,6 +248,9 @@ func runC30(c *c30Case, e *env, cov func(string)) (fail *behav.Failure, inconclu
 	}
 	// the source must hold what the specification says before the commands run; if it
 	// does not, the write path is at fault (C07/C28), not the commands
+	if err := e.settle(srcIndex, srcField); err != nil {
+		return nil, err.Error()
+	}
 	src, err := e.readField(srcIndex, srcField, ref.rowKeyed, ref.colKeyed, ref.probe())
 	if err != nil {
 		return nil, "reading the source: " + err.Error()
@@ -258,6 +262,7 @@ func runC30(c *c30Case, e *env, cov func(string)) (fail *behav.Failure, inconclu
 	}
 	if cov != nil {
 		cov("mode:" + mode)
+		cov(fmt.Sprintf("nodes:%d", len(e.nodes)))
 		cov("target:" + target)
 		cov("buf:" + strconv.Itoa(buf))
 		if len(behav.ToList(last["noFragment"])) > 0 {
@@ -353,6 +358,9 @@ func runC30(c *c30Case, e *env, cov func(string)) (fail *behav.Failure, inconclu
 	}
 	if cov != nil {
 		cov(fmt.Sprintf("import:sort=%v,file=%v,createSchema=%v", io.sort, io.fromFile, io.createSchema))
+	}
+	if err := e.settle(dstIndex, dstField); err != nil {
+		return nil, err.Error()
 	}
 	dst, err := e.readField(dstIndex, dstField, ref.rowKeyed, ref.colKeyed, ref.probe())
 	if err != nil {
@@ -454,6 +462,7 @@ func TestC30(t *testing.T) {
 		}
 	}()
 	slots := behav.EnvInt("VERIF_SLOTS", 2)
+	nodes := behav.EnvInt("VERIF_NODES", 1)
 	seed := behav.Seed()
 	var cases []*c30Case
 	if raw, ok := behav.LoadReplay(); ok {
@@ -463,15 +472,18 @@ func TestC30(t *testing.T) {
 		}
 		cases = append(cases, &c)
 		seed, slots = c.Seed, c.Slots
+		if c.Nodes > 0 {
+			nodes = c.Nodes
+		}
 	} else {
 		corrupt := os.Getenv("VERIF_CORRUPT")
 		for i, b := range behav.LoadEnv() {
-			cases = append(cases, &c30Case{Beh: b, Seed: seed, Idx: i, Slots: slots, Corrupt: corrupt})
+			cases = append(cases, &c30Case{Beh: b, Seed: seed, Idx: i, Slots: slots, Nodes: nodes, Corrupt: corrupt})
 		}
 	}
 	var e *env
 	var err error
-	if pv, stack := behav.Protect(func() { e, err = startEnv(seed, slots) }); pv != nil || err != nil {
+	if pv, stack := behav.Protect(func() { e, err = startEnv(t, seed, slots, nodes) }); pv != nil || err != nil {
 		res.SetInconclusive(fmt.Sprintf("starting the server: %v %v\n%s", err, pv, stack))
 		return
 	}
